@@ -93,7 +93,7 @@ def run_keep(case) -> None:
         fr = traceback.extract_tb(e.__traceback__)[-1]
         raise Failure(f"sdk-assert:{variant}:{case['hardware']}:{fr.name}", case, f"{api}(number={n}) with {case['others']} other live qubits on {case['hardware']} hardware hits an assertion in {fr.name}: {fr.line}")
     qubits = res[0] if api.endswith("with_info") else res
-    stack.expect(role, "K", n, [{"bell_state": b} for b in case["bells"]])
+    stack.expect(role, "K", n, [{"bell_state": b, "as_qlink10": case.get("wire") == "qlink10"} for b in case["bells"]])
     try:
         conn.flush()
     except sim.WouldBlock:
@@ -122,7 +122,7 @@ def run_keep(case) -> None:
         if abs(f - 1) > 1e-7:
             what = "Phi+" if want_phi else f"the delivered Bell state {b} (nothing should be corrected)"
             raise Failure(
-                f"fidelity:{variant}:{case['hardware']}:{'multi' if n > 1 else 'single'}:{'others' if case['others'] else 'alone'}",
+                f"fidelity:{variant}:{case['hardware']}:{'multi' if n > 1 else 'single'}:{'others' if case['others'] else 'alone'}" + (":qlink10" if case.get("wire") == "qlink10" else ""),
                 case,
                 f"pair {i} (delivered Bell state {b}) has fidelity {f:.3f} with {what} after the subroutine",
             )
@@ -267,6 +267,9 @@ def keep_cases(max_pairs: int, ctx_open) -> List[Dict[str, Any]]:
                             if variant == "create_keep" and not expect:
                                 continue
                             cases.append({"kind": "keep", "bells": list(bells), "variant": variant, "hardware": hardware, "others": others, "expect": expect})
+                            if variant in ("recv_keep", "recv_keep_seq") and others == 0:
+                                # the same scenario with the responses arriving as qlink-interface 1.0 objects
+                                cases.append({"kind": "keep", "bells": list(bells), "variant": variant, "hardware": hardware, "others": others, "expect": expect, "wire": "qlink10"})
     return cases
 
 
